@@ -118,7 +118,13 @@ Proof.
   intros. eapply sync_converges_thm; eauto.
 Qed.
 
-(* 7. hostile peer input — the part that is proved.  rpc.Serve + comm.handleRPC as accept/reject functions
+(* 7. hostile peer input — the part that is proved.  NOTE: the hostile_* theorems below are INVERSIONS of the
+      transcription `serve` (they read back its guards); their content is that the transcription has these guards and
+      no other path to an effect — what ties the transcription to comm/handle_rpc.go and p2psrv/rpc/rpc.go is the
+      per-message drop/keep comparison of the harness, not a proof.  `serve` models the effects on repository, block
+      feed, announcement loop and tx pool; the per-peer bookkeeping of the handlers (MarkBlock, MarkTransaction,
+      UpdateHead, txsToSync) is not modelled, "read-only" below means "no such effect".
+      rpc.Serve + comm.handleRPC as accept/reject functions
       (Sync/ModelRPC.v; decoding itself is an input): nothing of a message reaches the node (block feed -> import,
       announcement fetch, tx pool) unless its frame is within the size limit of its class (10 MiB; tx messages
       64 KiB + 1 KiB) AND it decodes as the type of its message code; messages above the limit, undecodable ones and
@@ -168,7 +174,8 @@ Proof. exact (fetch_guarded announced answer id). Qed.
    (`valid` abstracts consensus.Process + bft.Accepts: C02.) *)
 Theorem hostile_import_sound (Blk : Type) bid parent valid better l st st' ok :
   import_all Blk bid parent valid better st l = (st', ok) ->
-  (forall x, In x (store Blk st') -> In x (store Blk st) \/ (In x l /\ valid x = true)) /\
+  (forall x, In x (store Blk st') -> In x (store Blk st) \/
+             (In x l /\ valid x = true /\ known Blk bid st' (parent x) = true)) /\
   (best Blk st' = best Blk st \/ (In (best Blk st') l /\ valid (best Blk st') = true)).
 Proof. exact (import_all_sound Blk bid parent valid better l st st' ok). Qed.
 
